@@ -6,6 +6,7 @@ import (
 	"fmt"
 	"os"
 	"path/filepath"
+	"runtime/debug"
 	"sort"
 	"strconv"
 	"time"
@@ -104,6 +105,10 @@ func main() {
 			// helpers unknown to the rules were inlined into their callers first
 			extra["normalising_inliner"] = P.NormLog
 		}
+		if len(P.MovedLog) > 0 {
+			// anchors found in another package than the inventory has them in
+			extra["moved_anchors"] = P.MovedLog
+		}
 		if *tier == "thorough" {
 			for k, v := range thorough(*repo, *verif, prop, &res, known) {
 				extra[k] = v
@@ -131,7 +136,8 @@ func loadSafe(opt LoadOptions) (p *Program, err error) {
 				err = b
 				return
 			}
-			panic(e)
+			// a crash of the machinery is a broken check, reported as such
+			err = BrokenError{fmt.Sprintf("the checker crashed while loading or normalising: %v\n%s", e, debug.Stack())}
 		}
 	}()
 	return Load(opt), nil
